@@ -306,6 +306,13 @@ func main() {
 		for k, v := range c {
 			cc[k] = v
 		}
+		if *out != "" {
+			// a journal of the case in hand: if the process dies (a fatal error no recover() catches - stack overflow,
+			// concurrent map access, os.Exit), whoever started it finds here which case it was
+			if jb, err := json.Marshal(c); err == nil {
+				_ = os.WriteFile(*out+".current", jb, 0o644)
+			}
+		}
 		done := make(chan struct{})
 		go func() {
 			defer close(done)
@@ -326,6 +333,9 @@ func main() {
 			delete(c, "spawn")
 			cases = append(cases, sp...)
 		}
+	}
+	if *out != "" {
+		_ = os.Remove(*out + ".current")
 	}
 	var hungCases []Case
 	if len(hung) > 0 {
